@@ -191,6 +191,14 @@ func runOne(e *Engine, key, work string, verbose bool, all bool) int {
 			}
 		}
 	}
+	// slowest single queries (margin against the solver timeout)
+	slow := append([]*Obligation(nil), res.Obls...)
+	sort.Slice(slow, func(i, j int) bool { return slow[i].Seconds > slow[j].Seconds })
+	for i := 0; i < 3 && i < len(slow); i++ {
+		if slow[i].Seconds > 2 {
+			fmt.Printf("   slow %-60s %.1fs [%s]\n", slow[i].Name, slow[i].Seconds, slow[i].Backend)
+		}
+	}
 	for be, s := range stats.ByBackend {
 		fmt.Printf("   backend %-7s calls=%d discharged=%d %.2fs\n", be, s.Calls, s.Discharged, s.Seconds)
 	}
